@@ -165,6 +165,17 @@ func init() {
 			[]Stmt{tbl("a", ints("x")...), tbl("b", ints("y")...), {Kind: "dropTable", T: "b"}},
 			[]Stmt{tbl("a", ints("x")...), tbl("b", ints("y")...)}})
 	pairWitnesses = append(pairWitnesses,
+		// C01-n: two foreign keys dropped in one step, the first-declared together with its column, the second on a column
+		// that stays (and the mirror image for the down direction: two keys added, the first with its column)
+		witness{"w-two-fks-dropped-first-with-its-column", my,
+			[]Stmt{tbl("u", col("id", "int(11)", oNotNull, oPk)), tbl("t", ints("id", "a", "b")...),
+				fk("t", "fk_u_a", "a", "u", "id"), fk("t", "fk_u_b", "b", "u", "id")},
+			[]Stmt{tbl("u", col("id", "int(11)", oNotNull, oPk)), tbl("t", ints("id", "b")...)}},
+		witness{"w-two-fks-added-first-with-its-column", my,
+			[]Stmt{tbl("u", col("id", "int(11)", oNotNull, oPk)), tbl("t", ints("id", "b")...)},
+			[]Stmt{tbl("u", col("id", "int(11)", oNotNull, oPk)), tbl("t", ints("id", "a", "b")...),
+				fk("t", "fk_u_a", "a", "u", "id"), fk("t", "fk_u_b", "b", "u", "id")}})
+	pairWitnesses = append(pairWitnesses,
 		// FX-key-words-in-comment: the MODIFY of a column that is a key on both sides cut the first " PRIMARY KEY" out of the
 		// rendered definition — a comment containing the words was hit instead of the option (both keyword cases, both directions)
 		witness{"w-key-column-comment-contains-key-words-lower", runCfg{dialect: "mysql", lower: true},
